@@ -100,10 +100,12 @@ def truncation_verdict(text, allopts, out):
             pass
         # third red-team pass: the normalisation above is the SERIALIZER's, which never touches the inside of a '…' literal — so, besides the
         # texts agreeing modulo it, every literal of the reference (truncated or not) must stand in the output character for character, in order
-        def literals_exact(ref):
+        # (the literals are those of the INPUT, each in its reference form — re-lexing the reference would mis-read everything behind a cut that broke a literal)
+        def literals_exact(base, quirk):
             pos = 0
-            for tt, v in oracles.lex(ref):
-                if tt is T.Literal.String.Single:
+            for tt, v in oracles.lex(base):
+                if tt is T.Literal.String.Single and len(v) >= 2:
+                    v = truncate_reference(v, allopts, quirk=quirk)
                     pos = out.find(v, pos)
                     if pos < 0:
                         return False
@@ -111,7 +113,7 @@ def truncation_verdict(text, allopts, out):
             return True
 
         def agrees(quirk):
-            return any(norm(out) == norm(r) and literals_exact(r) for r in (truncate_reference(b, allopts, quirk=quirk) for b in bases))
+            return any(norm(out) == norm(truncate_reference(b, allopts, quirk=quirk)) and literals_exact(b, quirk) for b in bases)
         if agrees(False):
             return 'spec'
         if agrees(True):
